@@ -73,14 +73,15 @@ func canonicalWS(payload []byte) string {
 	return canonical(b)
 }
 
-// goLeaked counts goroutines started by apifu.Go (incl. chain/join) that are still there.
-func goLeaked() int {
+// goLeaked counts goroutines started by apifu.Go (incl. chain/join) during this case (not in pre)
+// that are still there.
+func goLeaked(pre map[int64]bool) int {
 	deadline := time.Now().Add(3 * time.Second)
 	stable, last := 0, -1
 	for {
 		n := 0
 		for _, g := range dump() {
-			if strings.Contains(g.stack, apiPkg+"Go.func1") {
+			if !pre[g.id] && strings.Contains(g.stack, apiPkg+"Go.func1") {
 				n++
 			}
 		}
@@ -120,6 +121,7 @@ func runCaseWS(roots []*fnode, gmp int, batchSpins [nBatch]int, events, which in
 	prev := setGMP(gmp)
 	defer setGMP(prev)
 
+	pre := gset()
 	holder := &wsHolder{stream: make(chan *nodeObj)}
 	for e := 0; e < events; e++ {
 		r := newRun(b.items, b.conns)
@@ -181,7 +183,7 @@ func runCaseWS(roots []*fnode, gmp int, batchSpins [nBatch]int, events, which in
 			hangs++
 			break
 		}
-		leak += goLeaked()
+		leak += goLeaked(pre)
 		if e == which {
 			asyncResp = resp
 		}
